@@ -7,7 +7,7 @@ From Coq Require Import String.
 From Boltons Require Import Lib.Prelude Lib.C06_Text Spec.C06_Spec Model.C06_Model Gen.C06_Gen Gen.C06_Src
   Proofs.C06_SrcEq
   Proofs.C06_Codec Proofs.C06_Utf8 Proofs.C06_Quote Proofs.C06_Lists Proofs.C06_Round Proofs.C06_Legal
-  Proofs.C06_Guard Proofs.C06_Refine Proofs.C06_Ports Proofs.C06_NoAuth Proofs.C06_NoAuthMin Proofs.C06_Shape Proofs.C06_Parsed Proofs.C06_QuoteMin Proofs.C06_Parts Proofs.C06_RoundMin Proofs.C06_Total Proofs.C06_Reads
+  Proofs.C06_Guard Proofs.C06_Refine Proofs.C06_Ports Proofs.C06_NoAuth Proofs.C06_NoAuthMin Proofs.C06_Shape Proofs.C06_Parsed Proofs.C06_QuoteMin Proofs.C06_Parts Proofs.C06_RoundMin Proofs.C06_Total Proofs.C06_Reads Proofs.C06_ReadsPort
   Proofs.C06_GenOk.
 Open Scope N_scope.
 
@@ -462,6 +462,15 @@ Theorem C06_parse_reads : forall T O, tables_ok T = true -> forall t u,
   wf_ref true t = true -> url_init T O t = MOk u -> reads_ok t (observe_url T u) = true.
 Proof. exact parse_reads. Qed.
 Print Assumptions C06_parse_reads.
+(* ... and the tail of the authority (Spec.port_reads): the port is the decimal value of the digits after the ':'
+   that follows the reg-name or the closing bracket (int() modelled structurally: no blanks, sign or underscores
+   in a digit string; more than 4300 digits is a URLParseError, never a wrong number), an IP-literal's host is the
+   text between the brackets with family AF_INET6.  Codec facts assumed for that ASCII text only
+   (ip_text_oracles): the idna codec returns it unchanged, inet_pton raises no UnicodeEncodeError on it. *)
+Theorem C06_parse_port_reads : forall T O t u, ip_text_oracles O ->
+  wf_ref true t = true -> url_init T O t = MOk u -> port_reads t (observe_url T u) = true.
+Proof. exact parse_port_reads. Qed.
+Print Assumptions C06_parse_port_reads.
 Theorem C06_parse_qsl_form : forall T, tables_ok T = true -> forall qs, parse_qsl T qs = form_pairs qs.
 Proof. exact parse_qsl_form. Qed.
 Print Assumptions C06_parse_qsl_form.
